@@ -308,6 +308,8 @@ def c15(res, rng, tier):
 # C03 — Encode then Decode is the identity on canonical values, a normal form otherwise
 # =============================================================================================
 def nan_class(text, proto):
+    """at protocol 0 all NaNs are one class (the text form loses the payload); the dump is re-sorted
+    afterwards, because map entries were ordered by the original bit patterns"""
     if proto != 0:
         return text
     def f(m):
@@ -315,7 +317,31 @@ def nan_class(text, proto):
         if (bits >> 52) & 0x7ff == 0x7ff and bits & ((1 << 52) - 1):
             return "f:nan"
         return m.group(0)
-    return re.sub(r"\bf:([0-9a-f]{16})\b", f, text)
+    text = re.sub(r"\bf:([0-9a-f]{16})\b", f, text)
+    if "f:nan" not in text or ("m{" not in text and "d{" not in text):
+        return text
+    toks = text.split()
+    pos = [0]
+    CLOSE = {"l[": "]", "t(": ")", "m{": "}", "d{": "}", "C(": ")", "R(": ")", "P&(": ")", "p&(": ")"}
+    def node():
+        t = toks[pos[0]]; pos[0] += 1
+        if t in CLOSE:
+            kids = []
+            while toks[pos[0]] != CLOSE[t]:
+                kids.append(node())
+            pos[0] += 1
+            if t in ("m{", "d{"):
+                pairs = sorted(kids[i] + " " + kids[i + 1] for i in range(0, len(kids) - 1, 2))
+                return t + " " + " ".join(pairs) + (" " if pairs else "") + CLOSE[t]
+            return t + " " + " ".join(kids) + (" " if kids else "") + CLOSE[t]
+        return t
+    try:
+        out = []
+        while pos[0] < len(toks):
+            out.append(node())
+        return " ".join(out)
+    except Exception:
+        return text
 
 ALLOWED = {"p0unicode": "err p0unicode", "p0persid": "err p0persid", "p0123global": "err p0123global", "type": "err type"}
 
